@@ -1,15 +1,30 @@
 #!/usr/bin/env python3
-"""replay_one.py <replay.json>: re-run one saved history on the current tree and re-validate it."""
+"""replay_one.py <replay.json>: re-run one saved history on the current tree and re-validate it the way the check
+that saved it did (same relaxation groups, oracle, known-deviation keys and tolerance)."""
 import sys
 from common import *
 r = json.load(open(sys.argv[1]))
-e = Execution(r['script'], variant=r['variant'], alloc=r.get('alloc', False), fill=r.get('fill'), label=r.get('label', 'replay'))
 wd = workdir('replay')
+if r.get('suite_src'):            # one of the repository's own programs, traced through the shim
+    import suite
+    ex, sk = suite.run_suite(wd, only=[r['suite_src']])
+    if not ex:
+        print('ERROR cannot re-run', r['suite_src'], sk); sys.exit(2)
+    e = ex[0]
+else:
+    e = Execution(r['script'], variant=r['variant'], alloc=r.get('alloc', False), fill=r.get('fill'), label=r.get('label', 'replay'))
+    e.oracle = bool(r.get('oracle'))
 run_executions([e], wd)
-relax = tuple(r.get('relax', ('live',)))
-n, rej = validate_executions([e], wd, relax=relax, oracle=bool(r.get('oracle')))
+relax = tuple(r.get('relax') or ('live',))
+env = {}
+if r.get('known') is not None:
+    kf = os.path.join(wd, 'known.json'); json.dump(r['known'], open(kf, 'w')); env['KNOWN'] = kf
+if r.get('kbits'):
+    env['KBITS'] = str(r['kbits'])
+n, rej = validate_executions([e], wd, relax=relax, oracle=bool(r.get('oracle')), extra_env=env or None, batch_lines=600)
 for x in rej:
     print('rejected at line %s (%s): %s' % (x.line_no, x.reason, json.dumps(x.event)[:600]))
     print('VIOLATION property=%s replay=%s' % (r['property'], sys.argv[1]))
 print('accepted' if not rej else 'rejected', n, 'lines; rc', e.rc)
+shutil.rmtree(wd, ignore_errors=True)
 sys.exit(1 if rej else 0)
